@@ -85,6 +85,45 @@ fn run(args: &[String], tier: &str) -> i32 {
         "C07" => c07::run(tier),
         "sim-smoke" => c07::smoke(),
         "real-smoke" => real::smoke(),
+        "script" => {
+            // debugging aid: nunverif script "<line>" "<line>" ... ; lines starting with "B:" / "C:" go to a second / third session
+            common::quiet_panics();
+            let (node, _adm) = c02::mem_node(&[("db", "none"), ("adb", "arbiter"), ("ndb", "newer")]);
+            let mut sessions = vec![common::session::Session::new(), common::session::Session::new(), common::session::Session::new()];
+            let mut last_conflict = String::new();
+            for l in &args[2..] {
+                let l = &l.replace("{last}", &last_conflict);
+                let (i, line) = if let Some(r) = l.strip_prefix("B:") { (1, r) } else if let Some(r) = l.strip_prefix("C:") { (2, r) } else { (0, l.as_str()) };
+                let dbs = node.dbs.clone();
+                let s = &mut sessions[i];
+                match std::panic::catch_unwind(std::panic::AssertUnwindSafe(|| s.call(&dbs, line))) {
+                    Ok(r) => {
+                        if let Some(p) = r.resp.find("$conflicts_") {
+                            last_conflict = r.resp[p..].split(|c: char| c == ' ' || c == ',').next().unwrap_or("").to_string();
+                        }
+                        println!("[{}] {:40} -> {} {:?}", i, line, r.resp, r.pushed)
+                    }
+                    Err(e) => println!("[{}] {:40} -> PANIC {} ({:?})", i, line, common::panic_msg(&e), common::take_panics()),
+                }
+            }
+            0
+        }
+        "slow-sub" => {
+            // debugging aid: nunverif slow-sub <writes> <value bytes>
+            common::quiet_panics();
+            let n: usize = args.get(2).and_then(|x| x.parse().ok()).unwrap_or(2000);
+            let len: usize = args.get(3).and_then(|x| x.parse().ok()).unwrap_or(4000);
+            let dir = common::fresh_dir("slowsub");
+            match transports::slow_tcp_subscriber(&dir, n, len) {
+                Some(s) => {
+                    let holes = s.received.windows(2).filter(|w| w[1] != w[0] + 1).count();
+                    println!("writes {} received {} first {:?} last {:?} holes {} ended_by_server {} count {} -> {} -> {} watchers_left {} served {} panics {:?}", s.writes, s.received.len(), s.received.first(), s.received.last(), holes, s.ended_by_server, s.count_before, s.count_with, s.count_after, s.watchers_left, s.served_afterwards, s.panics);
+                }
+                None => println!("could not start"),
+            }
+            common::cleanup_scratch();
+            0
+        }
         "real-part" => {
             // debugging aid: nunverif real-part <C04|C05|C06|C07> <runs>
             common::quiet_panics();
